@@ -499,6 +499,10 @@ def install(interp):
         if isinstance(v, (SymList, SymRecordList)):
             return bool(v)
         if isinstance(v, SymRef):
+            # an object is truthy unless its class says otherwise (__bool__ / __len__ anywhere below object)
+            for k in getattr(v.cls, "__mro__", ()):
+                if k is not object and ("__bool__" in k.__dict__ or "__len__" in k.__dict__):
+                    raise Inapplicable(f"truthiness of a symbolic {v.cls.__name__} goes through {k.__name__}.__bool__ / __len__")
             return True
         return old_truth(v)
     interp.truth = truth
